@@ -328,4 +328,212 @@ theorem Aged.rel_isChildActivated {rm s s'} (h : Aged rm s s') (hp : ActParentsK
       · simp only [ho.flowId]; exact Rel2.pure rfl s s'
     · simp only [if_neg ha]; exact Rel2.pure rfl s s'
 
+
+/-! ### every index operation -/
+
+/-- the instance an index operation is about -/
+def opTarget : Op → FUid
+  | .addInst f _ _ | .setPos f _ _ _ | .setStatus f _ _ _ | .fork f _ _ _ _ | .delHead f _ | .dropHeads f | .rmHead f _
+  | .clearHeads f | .mainRestart f _ _ | .setFlowStatus f _ | .removeInst f => f
+
+def isRemove : Op → Bool
+  | .removeInst _ => true
+  | _ => false
+
+theorem IxAged.rawAdd {rm a a'} (h : IxAged rm a a') (k : Key) (nm : String) : IxAged rm (rawAdd a k nm) (rawAdd a' k nm) :=
+  ⟨h.insts, by simp [CoreIndex.rawAdd, h.index], by simp [CoreIndex.rawAdd, h.rev]⟩
+
+theorem IxAged.headChanged {rm a a'} (h : IxAged rm a a') (k : Key) (fst hst elem) :
+    IxAged rm (headChanged a k fst hst elem) (headChanged a' k fst hst elem) := by
+  unfold CoreIndex.headChanged
+  cases elem with
+  | none => exact h.rawRemove k
+  | some nm =>
+    simp only
+    split
+    · exact (h.rawRemove k).rawAdd k nm
+    · exact h.rawRemove k
+
+theorem IxAged.touchHead {rm a a'} (h : IxAged rm a a') {f : FUid} (hk : keepB rm f = true) (hd : HUid) (g : Head → Head) :
+    IxAged rm (touchHead a f hd g) (touchHead a' f hd g) := by
+  unfold CoreIndex.touchHead
+  rw [h.findInst_kept hk]
+  cases findInst a f with
+  | none => exact h
+  | some i =>
+    simp only
+    cases i.findHead hd with
+    | none => exact h
+    | some x => exact (h.modifyInst f (fun i => i.modifyHead hd g) fun _ => rfl).headChanged _ _ _ _
+
+theorem filter_append_kept {rm} (l : List Inst) (x : Inst) (hk : keepB rm x.uid = true) :
+    (l ++ [x]).filter (fun i => keepB rm i.uid) = l.filter (fun i => keepB rm i.uid) ++ [x] := by
+  simp [List.filter_append, List.filter, hk]
+
+/-- every index operation except the clean-up's own `removeInst`, on a kept instance, commutes with the ageing -/
+theorem IxAged.step {rm a a'} (h : IxAged rm a a') (op : Op) (hk : keepB rm (opTarget op) = true) (hr : isRemove op = false) :
+    IxAged rm (step a op) (step a' op) := by
+  cases op with
+  | addInst f hd nm0 =>
+    have hk' : keepB rm f = true := hk
+    simp only [CoreIndex.step]
+    have h1 : IxAged rm { a with insts := a.insts ++ [{ uid := f, status := .waiting, heads := [newHead hd nm0] }] }
+        { a' with insts := a'.insts ++ [{ uid := f, status := .waiting, heads := [newHead hd nm0] }] } := by
+      refine ⟨?_, h.index, h.rev⟩
+      simp only [h.insts]
+      exact (filter_append_kept _ _ hk').symm
+    exact h1.headChanged _ _ _ _
+  | setPos f hd p nm =>
+    have hk' : keepB rm f = true := hk
+    simp only [CoreIndex.step, h.findInst_kept hk']
+    cases (findInst a f).bind (·.findHead hd) with
+    | none => exact h
+    | some x => simp only; split; exact h; exact h.touchHead hk' _ _
+  | setStatus f hd st nm =>
+    have hk' : keepB rm f = true := hk
+    simp only [CoreIndex.step, h.findInst_kept hk']
+    cases (findInst a f).bind (·.findHead hd) with
+    | none => exact h
+    | some x => simp only; split; exact h; exact h.touchHead hk' _ _
+  | fork f hd nm0 p nm =>
+    have hk' : keepB rm f = true := hk
+    simp only [CoreIndex.step]
+    split
+    · exact h.modifyInst f (fun i => { i with heads := i.heads ++ [newHead hd nm0] }) fun _ => rfl
+    · exact (h.modifyInst f (fun i => { i with heads := i.heads ++ [newHead hd nm0] }) fun _ => rfl).touchHead hk' _ _
+  | delHead f hd => exact h.step_simple hk _ (.inr (.inr (.inr (.inl ⟨hd, rfl⟩))))
+  | dropHeads f => exact h.step_simple hk _ (.inr (.inl rfl))
+  | rmHead f hd => exact h.step_simple hk _ (.inr (.inr (.inr (.inr ⟨hd, rfl⟩))))
+  | clearHeads f => exact h.step_simple hk _ (.inr (.inr (.inl rfl)))
+  | mainRestart f hd nm0 =>
+    have hk' : keepB rm f = true := hk
+    simp only [CoreIndex.step, h.findInst_kept hk']
+    cases findInst a f with
+    | none => exact h
+    | some i => exact (h.headChanged _ _ _ _).modifyInst f (fun i => { i with heads := [newHead hd nm0], status := .waiting }) fun _ => rfl
+  | setFlowStatus f st => exact h.step_simple hk _ (.inl ⟨st, rfl⟩)
+  | removeInst f => cases hr
+
+
+theorem instStatus_touchHead (a : IState) (f : FUid) (hd : HUid) (g : Head → Head) (u : FUid) :
+    instStatus (touchHead a f hd g) u = instStatus a u := by
+  unfold CoreIndex.touchHead
+  cases findInst a f with
+  | none => rfl
+  | some i =>
+    simp only
+    cases i.findHead hd with
+    | none => rfl
+    | some x =>
+      simp only
+      exact (instStatus_of_insts_eq (insts_headChanged _ _ _ _ _) u).trans
+        (instStatus_modifyInst a f u (fun i => i.modifyHead hd g) (fun _ => rfl) (fun _ => rfl))
+
+theorem find_append_ne (l : List Inst) (x : Inst) (u : FUid) (hu : x.uid ≠ u) :
+    (l ++ [x]).find? (·.uid = u) = l.find? (·.uid = u) := by
+  induction l with
+  | nil => simp [List.find?, hu]
+  | cons i l ih => by_cases hi : i.uid = u <;> simp [List.find?, hi, ih]
+
+/-- an index operation (other than `removeInst`) leaves the status of every instance it is not about alone -/
+theorem step_status_other (a : IState) (op : Op) (hr : isRemove op = false) {u : FUid} (hu : u ≠ opTarget op) :
+    instStatus (step a op) u = instStatus a u := by
+  cases op with
+  | addInst f hd nm0 =>
+    simp only [CoreIndex.step]
+    refine (instStatus_of_insts_eq (insts_headChanged _ _ _ _ _) u).trans ?_
+    unfold instStatus findInst
+    simp only
+    rw [find_append_ne _ _ _ (fun e => hu e.symm)]
+  | setPos f hd p nm =>
+    simp only [CoreIndex.step]
+    cases (findInst a f).bind (·.findHead hd) with
+    | none => rfl
+    | some x => simp only; split; rfl; exact instStatus_touchHead _ _ _ _ _
+  | setStatus f hd st nm =>
+    simp only [CoreIndex.step]
+    cases (findInst a f).bind (·.findHead hd) with
+    | none => rfl
+    | some x => simp only; split; rfl; exact instStatus_touchHead _ _ _ _ _
+  | fork f hd nm0 p nm =>
+    simp only [CoreIndex.step]
+    have h1 := instStatus_modifyInst a f u (fun i => { i with heads := i.heads ++ [newHead hd nm0] }) (fun _ => rfl) (fun _ => rfl)
+    split
+    · exact h1
+    · exact (instStatus_touchHead _ _ _ _ _).trans h1
+  | delHead f hd => exact step_simple_status a (.inr (.inr (.inr (.inl ⟨hd, rfl⟩)))) hu
+  | dropHeads f => exact step_simple_status a (.inr (.inl rfl)) hu
+  | rmHead f hd => exact step_simple_status a (.inr (.inr (.inr (.inr ⟨hd, rfl⟩)))) hu
+  | clearHeads f => exact step_simple_status a (.inr (.inr (.inl rfl))) hu
+  | mainRestart f hd nm0 =>
+    simp only [CoreIndex.step]
+    cases findInst a f with
+    | none => rfl
+    | some i =>
+      simp only
+      refine (instStatus_modifyInst' _ f u (fun i => { i with heads := [newHead hd nm0], status := .waiting }) (fun _ => rfl)).trans ?_
+      have hu' : u ≠ f := hu
+      rw [if_neg hu']
+      exact instStatus_of_insts_eq (insts_headChanged _ _ _ _ _) u
+  | setFlowStatus f st => exact step_simple_status a (.inl ⟨st, rfl⟩) hu
+  | removeInst f => cases hr
+
+theorem IxAged.mem_instUids {rm a a'} (h : IxAged rm a a') {f : FUid} (hk : keepB rm f = true) :
+    f ∈ instUids a' ↔ f ∈ instUids a := by
+  rw [← findInst_isSome_iff, ← findInst_isSome_iff, h.findInst_kept hk]
+
+/-- the guard of an index operation looks only at the instance it is about and at the two maps -/
+theorem IxAged.guard_eq {rm a a'} (h : IxAged rm a a') (op : Op) (hk : keepB rm (opTarget op) = true) (hr : isRemove op = false) :
+    op.guard a' = op.guard a := by
+  cases op with
+  | addInst f hd nm0 =>
+    have hk' : keepB rm f = true := hk
+    have := h.mem_instUids hk'
+    simp only [Op.guard]
+    congr 1
+    rw [Bool.eq_iff_iff]
+    simpa using this
+  | setPos f hd p nm => have hk' : keepB rm f = true := hk; simp only [Op.guard, h.findInst_kept hk']
+  | setStatus f hd st nm => have hk' : keepB rm f = true := hk; simp only [Op.guard, h.findInst_kept hk']
+  | fork f hd nm0 p nm => have hk' : keepB rm f = true := hk; simp only [Op.guard, h.findInst_kept hk']
+  | delHead f hd => exact h.guard_simple hk (.inr (.inr (.inr (.inl ⟨hd, rfl⟩))))
+  | dropHeads f => rfl
+  | rmHead f hd => exact h.guard_simple hk (.inr (.inr (.inr (.inr ⟨hd, rfl⟩))))
+  | clearHeads f => exact h.guard_simple hk (.inr (.inr (.inl rfl)))
+  | mainRestart f hd nm0 => have hk' : keepB rm f = true := hk; simp only [Op.guard, h.findInst_kept hk']
+  | setFlowStatus f st => exact h.guard_simple hk (.inl ⟨st, rfl⟩)
+  | removeInst f => cases hr
+
+/-- **every index write of the interpreter** (all of `CoreIndex.Op` except the clean-up's own `removeInst`) on a kept
+    instance keeps the relation: same guard outcome, related states -/
+theorem sim_applyOp {rm s s'} (h : Aged rm s s') (op : Op) (hk : keepB rm (opTarget op) = true) (hr : isRemove op = false) :
+    Sim2 rm (fun _ _ => True) (applyOp op) (applyOp op) s s' := by
+  have hg := h.ix.guard_eq op hk hr
+  have hs := h.ix.step op hk hr
+  unfold Sim2 CoreVM.applyOp
+  by_cases hgu : op.guard s.ixs.ix = true
+  · have hgu' : op.guard s'.ixs.ix = true := by rw [hg]; exact hgu
+    simp only [dif_pos hgu, dif_pos hgu']
+    refine ⟨trivial, { h with insts := hs.insts, index := hs.index, rev := hs.rev, rmDone := ?_ }⟩
+    intro u hu i hi
+    have hne : u ≠ opTarget op := by
+      intro e; subst e
+      simp [keepB, hu] at hk
+    have hst : instStatus (step s.ixs.ix op) u = some i.status := by
+      show (findInst (step s.ixs.ix op) u).map (·.status) = _
+      rw [show findInst (step s.ixs.ix op) u = some i from hi]; rfl
+    rw [step_status_other _ op hr hne] at hst
+    unfold instStatus at hst
+    cases h0 : findInst s.ixs.ix u with
+    | none => rw [h0] at hst; cases hst
+    | some i0 =>
+      rw [h0] at hst
+      simp only [Option.map] at hst
+      injection hst with hst
+      rw [← hst]
+      exact h.rmDone u hu i0 h0
+  · have hgu' : ¬ op.guard s'.ixs.ix = true := by rw [hg]; exact hgu
+    simp only [dif_neg hgu, dif_neg hgu']
+    exact ⟨trivial, h⟩
+
 end NemoVerif.C11.Bisim
